@@ -18,12 +18,15 @@ let field_prims (sl : slevel) : stype list =
   List.map (fun f -> f.sf_type) (List.filter (fun f -> not f.sf_const) sfs)
 
 (* events are printed positionally; scalar fields print their decoded value *)
-let show_events (evs : event list) : string =
+exception Events_short
+let show_events ?(partial = false) (evs : event list) : string =
   let sm = (match !cur_smsg with Some s -> s | None -> failwith "no message") in
   (* walk the schema in parallel to know the type of each field event *)
   let buf = Buffer.create 256 in
   let rest = ref evs in
-  let next () = match !rest with [] -> failwith "events: short" | e :: r -> rest := r; e in
+  let next () = match !rest with
+    | [] -> if partial then raise Events_short else failwith "events: short"
+    | e :: r -> rest := r; e in
   let rec walk (sl : slevel) =
     let SLevel (_, sgs, sds) = sl in
     List.iteri (fun k t ->
@@ -54,7 +57,7 @@ let show_events (evs : event list) : string =
       match next () with
       | EData (_, pos, n) -> Buffer.add_string buf (Printf.sprintf "D%d@%s#%s " k (rel pos) (string_of_z n))
       | _ -> failwith "events: expected data") sds in
-  walk sm.sm_level;
+  (try walk sm.sm_level with Events_short -> ());
   String.trim (Buffer.contents buf)
 
 let wrapper_of = function
@@ -62,9 +65,18 @@ let wrapper_of = function
   | c -> failwith (Printf.sprintf "wrapper %c" c)
 
 let () =
-  register "ctrav" (fun _ ->
+  register "ctrav" (fun args ->
       let m = the_msg () in
       let cl = clevel_of (the_slevel ()) m.m_hdr_size in
+      match args with
+      | k :: _ ->
+        (* the visitor's callback number k+1 returns true: CursorStop.trav_message_stop *)
+        (match trav_message_stop !cur_be !cur_buf m cl !cur_base (nat_of_int (int_of_string k)) with
+         | FDone (evs, c) -> String.trim (Printf.sprintf "%s c=%s" (show_events evs) (rel c))
+         | FStopped evs -> String.trim (show_events ~partial:true evs ^ " STOP")
+         | FAssert -> "ASSERT"
+         | FOob -> "OOB")
+      | [] ->
       match trav_message !cur_be !cur_buf m cl !cur_base with
       | COk (evs, c) -> String.trim (Printf.sprintf "%s c=%s" (show_events evs) (rel c))
       | CAssert -> "ASSERT"
